@@ -79,6 +79,8 @@ def main():
             sh("git -C /repo worktree remove --force %s" % w)
             shutil.rmtree(w, ignore_errors=True)
         sh("git -C /repo worktree prune")
+    # the run above regenerated lean/CppUModel/Gen from the changed tree: put the clean tree's back
+    sh("rm -f %s/.cache/gen_tree_stamp; python3 %s/tools/regen_all.py" % (VERIF, VERIF))
     meta["verified"] = ver
     meta["what_i_ran"] = ("tools/seed_eval.py: git apply on a scratch worktree of /repo HEAD; /opt/mut_tools/baseline.sh (ctest + hand-built "
                           "CppUTestExt suite); run_demo.sh on clean and changed tree; VERIF_REPO=<changed tree> ./check %s --tier quick" % pid)
